@@ -18,7 +18,10 @@ def params(cls, nps, scale=1.0):
     if cls == "CylinderSegment":
         r1 = u(0.2, 0.9)
         p1 = u(-180, 120)
+        if nps.random() < 0.2:  # the same angular ranges written one or two full turns away (valid input)
+            p1 += 360.0 * float(nps.choice([-2, -1, 1, 2]))
         if nps.random() < 0.2:  # full ring (hollow cylinder): exactly 360 degrees
+            p1 = float(np.round(p1))  # whole degrees: p1 + 360 - p1 == 360 exactly
             return dict(dimension=(r1 * scale, (r1 + u(0.3, 1)) * scale, u(0.5, 2) * scale, p1, p1 + 360.0), polarization=u(-1, 1, 3))
         return dict(dimension=(r1 * scale, (r1 + u(0.3, 1)) * scale, u(0.5, 2) * scale, p1, p1 + u(30, 300)), polarization=u(-1, 1, 3))
     if cls == "Sphere":
